@@ -8,10 +8,12 @@ package main
 
 import (
 	"bytes"
+	"context"
 	"encoding/hex"
 	"encoding/json"
 	"fmt"
 	"os"
+	"os/exec"
 	"strconv"
 	"strings"
 	"time"
@@ -101,10 +103,7 @@ func checkScript(kind string, s []byte) {
 		d, dl = implDecompressScript(c)
 		mdl = o.MustAsk("dscr " + vlib.Hex(c))
 		if !bytes.Equal(d, s) {
-			key := "script-roundtrip"
-			if nonCanonicalOnCurve(s) {
-				key = keyNonCanon
-			}
+			key := "script-roundtrip" // (keys with a coordinate ≥ p included: that class was fixed by 06ea4281 and is judged like any other)
 			r.PropFail(key, fmt.Sprintf("DecompressScript(CompressScript(s)) ≠ s: s=%x compressed=%x back=%x (%s)", s, c, d, cls), rep)
 			failed = true
 		}
@@ -251,10 +250,7 @@ func checkRec(kind string, compressed bool, rec *Rec, vouts []uint32, shrink boo
 		r.PropFail(key, what, rep)
 	}
 	keyFor := func(o *Out, dflt string) string {
-		if compressed && o != nil && nonCanonicalOnCurve(o.Scr) {
-			return keyNonCanon
-		}
-		return dflt
+		return dflt // no re-keying: the non-canonical-coordinate class is fixed (06ea4281), a mismatch there is a violation like any other
 	}
 
 	ser, p := implSer(rec)
@@ -367,20 +363,59 @@ func offendingOut(compressed bool, rec *Rec) int {
 
 // ---------------------------------------------------------------- malformed record bytes (tie only)
 
-func withTimeout(f func()) bool {
+func withTimeout(f func()) bool { return withTimeoutD(5*time.Second, f) }
+
+// probeChild runs NewUtxoRec ("dec") / OneUtxoRec ("one") on dat in a copy of this program (environment variable
+// VERIF_C10_PROBE, see main) and reports the first word of the result, or that the child had to be killed.
+func probeChild(what string, compressed bool, dat []byte, vout uint32) string {
+	ctx, cancel := context.WithTimeout(context.Background(), time.Second)
+	defer cancel()
+	cmd := exec.CommandContext(ctx, os.Args[0])
+	cmd.Env = append(os.Environ(), fmt.Sprintf("VERIF_C10_PROBE=%s %v %s %d", what, compressed, hex.EncodeToString(dat), vout))
+	out, err := cmd.Output()
+	if ctx.Err() != nil {
+		return "does-not-terminate-in-1s"
+	}
+	if err != nil {
+		return "child-failed"
+	}
+	return strings.Fields(string(out) + " ?")[0]
+}
+
+// runProbe is the child side of probeChild.
+func runProbe(spec string) {
+	var what, hx string
+	var compressed bool
+	var vout uint32
+	if _, err := fmt.Sscanf(spec, "%s %t %s %d", &what, &compressed, &hx, &vout); err != nil {
+		os.Exit(2)
+	}
+	dat, _ := hex.DecodeString(hx)
+	setMode(compressed)
+	if what == "dec" {
+		rec, p := implDec(dat)
+		fmt.Println(decLine(rec, p))
+	} else {
+		_, l := implOne(dat, vout)
+		fmt.Println(l)
+	}
+	os.Exit(0)
+}
+
+func withTimeoutD(d time.Duration, f func()) bool {
 	done := make(chan bool, 1)
 	go func() { f(); done <- true }()
 	select {
 	case <-done:
 		return true
-	case <-time.After(5 * time.Second):
+	case <-time.After(d):
 		return false
 	}
 }
 
 // checkBytes: decoders on bytes that are NOT a serialisation (truncated / mutated). The property
 // says nothing here; this only widens the model-vs-code comparison. Inputs on which the model
-// predicts a non-terminating loop or an absurd allocation are not given to the real code.
+// gives no prediction ("hang") are run under a timeout and the outcome recorded; an absurd allocation is not run.
 func checkBytes(kind string, compressed bool, dat []byte, vout uint32) {
 	setMode(compressed)
 	mode := modeStr(compressed)
@@ -401,6 +436,22 @@ func checkBytes(kind string, compressed bool, dat []byte, vout uint32) {
 	r.Hit("bytes:dec=" + strings.Fields(md)[0])
 	r.Hit("bytes:one=" + strings.Fields(mo)[0])
 	var il, ol string
+	if md == "hang" {
+		// the model gives no prediction (backwards walk / fuel): the real code is run all the same — in a child process that
+		// can be killed, a goroutine that never returns would spin for the rest of the run — and what it does is recorded
+		res := probeChild("dec", compressed, dat, vout)
+		r.Hit("bytes:model-no-prediction/dec-real=" + res)
+		if _, have := r.Extra["corrupt_record_on_which_NewUtxoRec_"+res]; !have {
+			r.Extra["corrupt_record_on_which_NewUtxoRec_"+res] = mode + " " + hex.EncodeToString(dat)
+		}
+	}
+	if mo == "hang" {
+		res := probeChild("one", compressed, dat, vout)
+		r.Hit("bytes:model-no-prediction/one-real=" + res)
+		if _, have := r.Extra["corrupt_record_on_which_OneUtxoRec_"+res]; !have {
+			r.Extra["corrupt_record_on_which_OneUtxoRec_"+res] = fmt.Sprintf("%s %s vout %d", mode, hex.EncodeToString(dat), vout)
+		}
+	}
 	if md != "hang" {
 		if !withTimeout(func() { rec, p := implDec(dat); il = decLine(rec, p) }) {
 			r.TieFail("bytes-model-"+mode, "NewUtxoRec does not terminate but the model says "+short(md), rep)
@@ -566,9 +617,7 @@ func checkSnap(kind string, sc *snapCase) {
 				t = db.UnspentGet(&btc.TxPrevOut{Hash: rc.TxID, Vout: v})
 			}()
 			key := "snapshot-" + mode
-			if sc.Compressed && nonCanonicalOnCurve(want.Scr) {
-				key = keyNonCanon
-			} else if sc.ViaCommit && sc.Compressed {
+			if sc.ViaCommit && sc.Compressed {
 				key = "snapshot-fresh-db-compressed-flag"
 			}
 			if pan != "" || t == nil || t.Value != want.Val || !bytes.Equal(t.Pk_script, want.Scr) || t.BlockHeight != rc.Height || t.WasCoinbase != rc.CB {
@@ -700,6 +749,9 @@ func replay(path string) {
 // ---------------------------------------------------------------- main
 
 func main() {
+	if p := os.Getenv("VERIF_C10_PROBE"); p != "" {
+		runProbe(p)
+	}
 	r = vlib.NewRun("C10")
 	var err error
 	o, err = vlib.StartOracle("c10")
@@ -712,7 +764,7 @@ func main() {
 	r.Assume = []string{
 		"amounts of records are within 0..21e14 (the property's quantifier); CompressAmount wraps above (2^64-1)/9 — compared with the model there, not required to round-trip",
 		"record keys (first 8 txid bytes) are distinct inside one snapshot (key collisions are property C04's subject)",
-		"secp256k1 field arithmetic is represented in the model by plain arithmetic mod p (mathKeys); compared with ParsePubkey/IsValid/GetPublicKey on every run; KeyOps.Sound for mathKeys is proved from Nat.Prime p, primality of p is a hypothesis",
+		"secp256k1 field arithmetic is represented in the model by plain arithmetic mod p (mathKeys); compared with ParsePubkey/IsValid/GetPublicKey on every run; KeyOps.Sound for mathKeys is PROVED without hypothesis (mathKeys_sound_unconditional: primality of p from C08's Pratt certificate); that the Go 5x52 field code computes these functions is tested here and is property C08's subject",
 		"process-level effects of save() (rename UTXO.db→UTXO.old, temp file) are not modelled; only the bytes of the final UTXO.db are",
 	}
 	if r.Replay != "" {
@@ -746,5 +798,6 @@ func main() {
 		"a case is distinct by its full input (amount / script / record line+mode / snapshot contents); undo stream: 1..10 records committed by one block, a subset of their outputs (none / one / random / all) spent by the next block which also adds records, that block undone, with the client's recycling allocator in steady state, a poisoning allocator and the Go heap, plain and compressed; one snapshot of 11..15 loader packs with concentrated keys reloaded under GOMAXPROCS 1/2/default",
 		"Each case runs on the real gocoin code; the property predicate (what was stored comes back: whole decode, single-output lookup, snapshot reload) is evaluated on the real results, "+
 			"and every real result (serialised bytes, decoded record, lookup, compressed script/amount, snapshot file bytes, partly spent and undo-merged records) is compared with the Lean model's. "+
-			"Known finding "+keyNonCanon+": uncompressed P2PK keys with X or Y ≥ p are accepted by ParsePubkey/IsValid, compressed, and come back with reduced (and for Y ≥ p negated) coordinates.")
+			"Fixed defect "+keyNonCanon+" (fix: 06ea4281, fixed: line in known_findings.txt): uncompressed P2PK keys with X or Y ≥ p used to be accepted by ParsePubkey/IsValid, compressed, and came back with reduced (and for Y ≥ p negated) coordinates; such keys are now stored verbatim. The witnesses stay in the corpus and in every stream (record, snapshot, undo) and are judged like every other script: a mismatch there is a VIOLATION under the stream's ordinary key. "+
+			"Malformed bytes on which the model gives no prediction ('hang': a negative skip length walks the Go loop backwards; fuel exhausted) are still given to the real decoder (in a child process, killed after 1 s) and its outcome is recorded (bytes:model-no-prediction/…).")
 }
